@@ -7,21 +7,19 @@ namespace OG.C01
 open OG.C02
 
 def visO (d : Durable) (gs : List Gen) : List Cell :=
-  ((gs.filter fun g => d.vis.contains (g.no, false)).map (·.ooo)).flatten
+  (gs.map fun g => visPart d g.no false g.ooo).flatten
 def visR (d : Durable) (gs : List Gen) : List Cell :=
-  ((gs.filter fun g => d.vis.contains (g.no, true)).map (·.ordered)).flatten
+  (gs.map fun g => visPart d g.no true g.ordered).flatten
 
 theorem fileCells_eq (h : Hist) (d : Durable) : fileCells h d = visO d h.gens ++ visR d h.gens := rfl
 
 theorem visO_cons (d : Durable) (g : Gen) (gs : List Gen) :
-    visO d (g :: gs) = if d.vis.contains (g.no, false) then g.ooo ++ visO d gs else visO d gs := by
-  simp only [visO, List.filter_cons]
-  split <;> simp
+    visO d (g :: gs) = visPart d g.no false g.ooo ++ visO d gs := by
+  simp [visO]
 
 theorem visR_cons (d : Durable) (g : Gen) (gs : List Gen) :
-    visR d (g :: gs) = if d.vis.contains (g.no, true) then g.ordered ++ visR d gs else visR d gs := by
-  simp only [visR, List.filter_cons]
-  split <;> simp
+    visR d (g :: gs) = visPart d g.no true g.ordered ++ visR d gs := by
+  simp [visR]
 
 /-- when every generation is completely visible the visible cells are all the cells. -/
 theorem vis_full (d : Durable) (gs : List Gen) (hf : ∀ g ∈ gs, fullGen d g = true) :
@@ -31,36 +29,22 @@ theorem vis_full (d : Durable) (gs : List Gen) (hf : ∀ g ∈ gs, fullGen d g =
   | cons g gs ih =>
     have ih' := ih (fun x hx => hf x (by simp [hx]))
     have hg := hf g (by simp)
-    simp only [fullGen, Bool.and_eq_true, Bool.or_eq_true, List.isEmpty_iff] at hg
+    simp only [fullGen, Bool.and_eq_true, List.all_eq_true] at hg
     constructor
     · rw [visO_cons, ih'.1]
-      split
-      · simp
-      · rename_i hv
-        rcases hg.2 with he | hv'
-        · simp [he]
-        · exact absurd hv' hv
+      simp only [visPart, List.map_cons, List.flatten_cons]
+      rw [List.filter_eq_self.2 hg.2]
     · rw [visR_cons, ih'.2]
-      split
-      · simp
-      · rename_i hv
-        rcases hg.1 with he | hv'
-        · simp [he]
-        · exact absurd hv' hv
+      simp only [visPart, List.map_cons, List.flatten_cons]
+      rw [List.filter_eq_self.2 hg.1]
 
 theorem visO_cons_keys (d : Durable) (g : Gen) (gs : List Gen) :
-    ∃ o, visO d (g :: gs) = o ++ visO d gs ∧ (∀ c ∈ o, c ∈ g.ooo) := by
-  rw [visO_cons]
-  split
-  · exact ⟨g.ooo, by simp, fun c hc => hc⟩
-  · exact ⟨[], by simp, fun c hc => by simp at hc⟩
+    ∃ o, visO d (g :: gs) = o ++ visO d gs ∧ (∀ c ∈ o, c ∈ g.ooo) :=
+  ⟨visPart d g.no false g.ooo, visO_cons d g gs, fun c hc => (List.mem_filter.1 hc).1⟩
 
 theorem visR_cons_keys (d : Durable) (g : Gen) (gs : List Gen) :
-    ∃ o, visR d (g :: gs) = o ++ visR d gs ∧ (∀ c ∈ o, c ∈ g.ordered) := by
-  rw [visR_cons]
-  split
-  · exact ⟨g.ordered, by simp, fun c hc => hc⟩
-  · exact ⟨[], by simp, fun c hc => by simp at hc⟩
+    ∃ o, visR d (g :: gs) = o ++ visR d gs ∧ (∀ c ∈ o, c ∈ g.ordered) :=
+  ⟨visPart d g.no true g.ordered, visR_cons d g gs, fun c hc => (List.mem_filter.1 hc).1⟩
 
 /-- cells of the batches `[a, b)` occur among the cells of the batches `[w, m)` when
 `w ≤ a` and `b ≤ m`. -/
